@@ -652,7 +652,15 @@ class Array(metaclass=MetaArray):
             if info.size > self._get_size():
                 raise ValueError(f"{value} does not fit in {self}")
             info.size = self._get_size()
-            self.__class__._to_buffer(self._buffer, self._offset, value, info)
+            # a refused item must not leave the earlier ones modified
+            saved = self._buffer.to_bytearray(self._offset, info.size)
+            try:
+                self.__class__._to_buffer(
+                    self._buffer, self._offset, value, info
+                )
+            except Exception:
+                self._buffer.update_from_buffer(self._offset, saved)
+                raise
             if hasattr(self, "_offsets"):  # items may have moved
                 self._offsets = self.__class__._from_buffer(
                     self._buffer, self._offset
